@@ -15,6 +15,7 @@
       leaves (its last writer in program order) — literal equality of the register maps.
 -/
 import MajoranaVerif.Proofs.Mvp4Run
+import MajoranaVerif.Proofs.Mvp5Run
 open GoInt Model Model.Mvp4 Model.Seq Proofs.Mvp4
 
 namespace Props.C04
@@ -70,5 +71,71 @@ example : (Model.Mvp4.run exApp exCtx 4000).halt = some .ret ∧
 /-- the relation the per-cycle theorems assume holds in the initial state of every run -/
 example : ∃ s0, init exCtx = .ok s0 ∧ Rel exApp s0 ⟨exCtx, 0#32⟩ :=
   init_rel exApp exCtx ⟨rfl, rfl, fun r => by simp [exCtx, GoMap.get1, GoMap.get, GoMap.find?]⟩
+
+end Props.C04
+
+/-! ## MVP-5 (work package MVP5)
+
+  C04 for MVP-5, proved on the cycle-accurate model `Model.Mvp5` (tied to the Go code cycle-exactly).  The
+  back end of MVP-5 — execute unit, write bus, write unit, both scoreboards — is MVP-4's (`Model.Mvp5` calls
+  `Model.Mvp4`'s functions on the common part `State.base` of the state); the execute unit differs only for
+  unconditional jumps (`bu.assert` with the BTB before the interlock, `notifyJumpAddressResolved` after `Run`).
+  The MVP-5 counterparts of the four theorems above. -/
+
+namespace Props.C04
+
+/-- **RAW** (MVP-5): the register interlock gives the sequential operand values — also for `jalr`, whose target
+register is read under the same interlock after the BTB prediction has been acted upon. -/
+theorem mvp5_hazard_interlock_sequential_operands (s : Model.Mvp5.State) (a : Arch) (hb : Back s.base a) (i : Gen.Instr)
+    (hf : fwdOf i = {}) (hz : isWriteDataHazard s.base.ctx.PendingWriteRegisters i.readRegisters = false)
+    (labels : GoMap String Word) (pc : Word) (mem : List Byte) :
+    i.run s.base.ctx labels pc mem 0#32 = i.run a.ctx labels pc mem 0#32 ∧
+    i.memoryRead s.base.ctx 0#32 = i.memoryRead a.ctx 0#32 :=
+  hazard_interlock_sequential_operands s.base a hb i hf hz labels pc mem
+
+/-- **WAW / WAR** (MVP-5): the write unit applies the queued results in program order — it never changes the
+architectural state. -/
+theorem mvp5_write_unit_keeps_architectural_state (s s1 : Model.Mvp5.State) (a : Arch) (hb : Back s.base a)
+    (h : Model.Mvp5.writeCycle s = .ok s1) : Back s1.base a := by
+  obtain ⟨_, _, _, hb1, _⟩ := Proofs.Mvp5.writeCycle5_rel (app := { instrs := [], labels := {} }) hb h
+  exact hb1
+
+/-- (MVP-5) the execute unit executes the instruction at the architectural pc, with the sequential operands, and
+the result is one step of the unpipelined machine (`Proofs.Mvp5.ExecPost5` spells out the four outcomes). -/
+theorem mvp5_executes_exactly_the_sequential_step (app : App) (s s2 : Model.Mvp5.State) (a : Arch) (out : EuOut)
+    (hb : Back s.base a) (hn : Proofs.Mvp5.NormalOk5 app s a) (hnf : NoFwd app) (hok : stepOk app a = true)
+    (h : Model.Mvp5.executeCycle app s = .ok (s2, out)) :
+    Proofs.Mvp5.ExecPost5 app s a s2 (LiveEu s.base → Proofs.Mvp5.Stut5 s s2) out :=
+  (Proofs.Mvp5.executeCycle5_sim hb hn hnf hok h).2.2.2.2.2
+
+/-- **after an MVP-5 run each register holds the value of its last writer in program order** -/
+theorem mvp5_final_registers_sequential (app : App) (hnf : NoFwd app) (ctx : Model.Context) (hc : CtxOk ctx)
+    (fuel : Nat) (hok : seqOk app fuel ⟨ctx, 0#32⟩ = true) (hk : Halt)
+    (hh : (Model.Mvp5.run app ctx fuel).halt = some hk) (hnp : ∀ w, hk ≠ .panic w) (hne : hk ≠ .err) :
+    ∃ n, (runMvp1 app ⟨ctx, 0#32⟩ n).halt = some hk ∧
+      (Model.Mvp5.run app ctx fuel).final.base.ctx.Registers = (runMvp1 app ⟨ctx, 0#32⟩ n).final.ctx.Registers := by
+  obtain ⟨n, h1, h2⟩ := Proofs.Mvp5.mvp5_refines_mvp1 app hnf ctx hc fuel hok hk hh hnp
+  exact ⟨n, h1, (h2 hne).1⟩
+
+/-! non-vacuity: a RAW chain through a call: the link register written by `jal` is read by `jalr` -/
+
+/-- `li x5,7 ; jal x1,F ; add x7,x6,x5 ; ret ; F: addi x6,x5,1 ; jalr x0,x1,0` -/
+def exApp5 : App :=
+  { instrs := [.li_ { rd := 5, imm := 7#32 }, .jal_ { rd := 1, label := "F" }, .add_ { rd := 7, rs1 := 6, rs2 := 5 },
+               .ret_ {}, .addi_ { rd := 6, rs := 5, imm := 1#32 }, .jalr_ { rd := 0, rs := 1, imm := 0#32 }],
+    labels := ⟨[("F", 16#32)]⟩ }
+
+example : NoFwd exApp5 := by unfold NoFwd exApp5; decide
+set_option maxRecDepth 100000 in
+example : seqOk exApp5 4000 ⟨exCtx, 0#32⟩ = true := by decide
+set_option maxRecDepth 100000 in
+example : (Model.Mvp5.run exApp5 exCtx 4000).halt = some .ret ∧
+    GoMap.get1 (Model.Mvp5.run exApp5 exCtx 4000).final.base.ctx.Registers 7 = 15#32 ∧
+    GoMap.get1 (Model.Mvp5.run exApp5 exCtx 4000).final.base.ctx.Registers 1 = 8#32 := by decide
+/-- the relation the per-cycle theorems assume holds in the initial state of every run -/
+example : ∃ s0, Model.Mvp5.init exCtx = .ok s0 ∧ Proofs.Mvp5.Rel5 exApp5 s0 ⟨exCtx, 0#32⟩ := by
+  obtain ⟨s0, h1, h2, _⟩ := Proofs.Mvp5.init5_rel exApp5 exCtx
+    ⟨rfl, rfl, fun r => by simp [exCtx, GoMap.get1, GoMap.get, GoMap.find?]⟩
+  exact ⟨s0, h1, h2⟩
 
 end Props.C04
